@@ -80,7 +80,8 @@ package resource_division
 //@ end
 
 // share weight of one queue for total over-quota weight T and time-based-fairness factor kv
-//@ define shareW(q *rs.QueueAttributes, r rs.ResourceName, T real, kv real) real = max(0.0, weight(q, r) / T + kv * (weight(q, r) / T - usage(q, r)))
+//@ define shareWf(w real, u real, T real, kv real) real = max(0.0, w / T + kv * (w / T - u))
+//@ define shareW(q *rs.QueueAttributes, r rs.ResourceName, T real, kv real) real = shareWf(weight(q, r), usage(q, r), T, kv)
 
 // C09 ("within a priority the surplus is monotone in over-quota weight", "weight incl. 0", "all
 // k-values"): per-round share weights are >= 0, bounded by their sum, exist exactly for the
@@ -94,7 +95,9 @@ package resource_division
 //@     invariant shareWeightsSum >= 0.0
 //@     invariant forall k in shareWeightsPerQueue :: k in visited && !satisfied(queues[k], resourceName)
 //@     invariant forall k in visited :: !satisfied(queues[k], resourceName) ==> k in shareWeightsPerQueue
-//@     invariant forall k in shareWeightsPerQueue :: shareWeightsPerQueue[k] == shareW(queues[k], resourceName, totalWeights, kValue)
+//@     invariant resourceName == "CPU" ==> forall k in shareWeightsPerQueue :: shareWeightsPerQueue[k] == shareWf(queues[k].CPU.OverQuotaWeight, queues[k].CPU.Usage, totalWeights, kValue)
+//@     invariant resourceName == "Memory" ==> forall k in shareWeightsPerQueue :: shareWeightsPerQueue[k] == shareWf(queues[k].Memory.OverQuotaWeight, queues[k].Memory.Usage, totalWeights, kValue)
+//@     invariant resourceName == "GPU" ==> forall k in shareWeightsPerQueue :: shareWeightsPerQueue[k] == shareWf(queues[k].GPU.OverQuotaWeight, queues[k].GPU.Usage, totalWeights, kValue)
 //@     invariant forall k in shareWeightsPerQueue :: shareWeightsPerQueue[k] <= shareWeightsSum
 //@   ensures [freshMap] result0 != nil && fresh(result0)
 //@   ensures [sumNonNeg] result1 >= 0.0
@@ -103,7 +106,9 @@ package resource_division
 //@   ensures [keysUnsatisfied] forall k in result0 :: k in queues && !satisfied(queues[k], resourceName)
 //@   ensures [unsatisfiedHaveKey] result1 != 0.0 ==> forall k in queues :: !satisfied(queues[k], resourceName) ==> k in result0
 //@   ensures [formula] result1 != 0.0 ==> exists T real :: T > 0.0 && (forall k in queues :: !satisfied(queues[k], resourceName) ==> weight(queues[k], resourceName) <= T) && (forall k in result0 :: result0[k] == shareW(queues[k], resourceName, T, kValue))
-//@   ensures [weightMonotone] kValue >= 0.0 ==> forall a in result0 :: forall b in result0 :: weight(queues[a], resourceName) <= weight(queues[b], resourceName) && usage(queues[a], resourceName) >= usage(queues[b], resourceName) ==> result0[a] <= result0[b]
+//@   ensures [weightMonotoneCPU] resourceName == "CPU" && kValue >= 0.0 ==> forall a in result0 :: forall b in result0 :: queues[a].CPU.OverQuotaWeight <= queues[b].CPU.OverQuotaWeight && queues[a].CPU.Usage >= queues[b].CPU.Usage ==> result0[a] <= result0[b]
+//@   ensures [weightMonotoneMemory] resourceName == "Memory" && kValue >= 0.0 ==> forall a in result0 :: forall b in result0 :: queues[a].Memory.OverQuotaWeight <= queues[b].Memory.OverQuotaWeight && queues[a].Memory.Usage >= queues[b].Memory.Usage ==> result0[a] <= result0[b]
+//@   ensures [weightMonotoneGPU] resourceName == "GPU" && kValue >= 0.0 ==> forall a in result0 :: forall b in result0 :: queues[a].GPU.OverQuotaWeight <= queues[b].GPU.OverQuotaWeight && queues[a].GPU.Usage >= queues[b].GPU.Usage ==> result0[a] <= result0[b]
 //@ end
 
 // ---- phase 1: deserved quota ------------------------------------------------
@@ -254,50 +259,63 @@ package resource_division
 
 // ---- phase 3: remainder hand-out ----------------------------------------------
 //@ import su "github.com/NVIDIA/KAI-scheduler/pkg/scheduler/scheduler_util"
-// every element of the priority queue is (a boxed pointer to) a record of the remainder table rr
-//@ define pqFromTable(pq *su.PriorityQueue, rr map[common_info.QueueID]*remainingRequestedResource, n int) bool = forall i int :: 0 <= i && i < n ==> typeis(pq.queue.items[i], "*remainingRequestedResource") && (exists k in rr :: unbox(pq.queue.items[i], "*remainingRequestedResource") == rr[k])
-
+// usable remainder table (as built by divideUpToFairShare): every record is stored under the UID of its
+// queue (so different records belong to different queues), fair-share caches coherent
+//@ define rrKeyed(rr map[common_info.QueueID]*remainingRequestedResource) bool = forall k in rr :: rr[k] != nil && rr[k].queue != nil && rr[k].queue.UID == k && rs.cacheOK(rr[k].queue)
+// e is a record of the table / q is a queue with a record in the table
+//@ define fromTable(rr map[common_info.QueueID]*remainingRequestedResource, e *remainingRequestedResource) bool = e != nil && e.queue != nil && e.queue.UID in rr && rr[e.queue.UID] == e
+//@ define inTable(rr map[common_info.QueueID]*remainingRequestedResource, q *rs.QueueAttributes) bool = q.UID in rr && rr[q.UID].queue == q
+// every element of the priority queue is (a boxed pointer to) a record of the table, each at most once
+//@ define pqFromTable(pq *su.PriorityQueue, rr map[common_info.QueueID]*remainingRequestedResource) bool = forall i int :: 0 <= i && i < len(pq.queue.items) ==> typeis(pq.queue.items[i], "*remainingRequestedResource") && fromTable(rr, unbox(pq.queue.items[i], "*remainingRequestedResource"))
+//@ define pqNoDup(pq *su.PriorityQueue) bool = forall i1 int, i2 int :: 0 <= i1 && i1 < i2 && i2 < len(pq.queue.items) ==> unbox(pq.queue.items[i1], "*remainingRequestedResource") != unbox(pq.queue.items[i2], "*remainingRequestedResource")
 // priority queues and interface cells that existed before the call are untouched
 //@ define oldQueuesKept() bool = (forall p *su.priorityQueue :: p != nil && !fresh(p) ==> p.items == old(p.items)) && (forall c *interface{} :: old(allocated(c)) ==> *c == old(*c))
+// the share of q for resource r is as in the pre-state
+//@ define ungained(q *rs.QueueAttributes, r rs.ResourceName) bool = fair(q, r) == old(fair(q, r))
 
+// the priority queue of the remainder phase holds every record of the table exactly once (functional:
+// independent of the map iteration order up to the heap's internal layout)
 //@ func sortByOverQuotaWeight
-//@   props C09x
+//@   props C09
+//@   requires rrKeyed(remainingRequested)
 //@   fresh
 //@   loop 1
-//@     invariant sortedGroupQueues != nil && fresh(sortedGroupQueues) && sortedGroupQueues.maxQueueSize == 0 - 1
+//@     invariant sortedGroupQueues != nil && fresh(sortedGroupQueues) && sortedGroupQueues.maxQueueSize == 0 - 1 && fresh(sortedGroupQueues.queue.items)
 //@     invariant oldQueuesKept()
 //@     invariant forall k in visited :: k in remainingRequested
-//@     invariant pqFromTable(sortedGroupQueues, remainingRequested, len(sortedGroupQueues.queue.items))
-//@   ensures [unbounded] result != nil && result.maxQueueSize == 0 - 1
-//@   ensures [onlyTableRecords] pqFromTable(result, remainingRequested, len(result.queue.items))
+//@     invariant pqFromTable(sortedGroupQueues, remainingRequested)
+//@     invariant forall i int :: 0 <= i && i < len(sortedGroupQueues.queue.items) ==> unbox(sortedGroupQueues.queue.items[i], "*remainingRequestedResource").queue.UID in visited
+//@     invariant pqNoDup(sortedGroupQueues)
+//@   ensures [unbounded] result != nil && result.maxQueueSize == 0 - 1 && fresh(result.queue.items)
+//@   ensures [onlyTableRecords] pqFromTable(result, remainingRequested)
+//@   ensures [noDuplicates] pqNoDup(result)
 //@ end
 
-// usable remainder table: records and their queues exist, fair-share caches coherent
-//@ define rrUsable(rr map[common_info.QueueID]*remainingRequestedResource) bool = forall k in rr :: rr[k] != nil && rr[k].queue != nil && rs.cacheOK(rr[k].queue)
-//@ define inTable(rr map[common_info.QueueID]*remainingRequestedResource, q *rs.QueueAttributes) bool = exists k in rr :: rr[k].queue == q
-
-// C09, remainder phase of one priority level ("the surplus handed out never exceeds what is left"):
-// hands out min(1, what is left) per popped record, so 0 <= remaining <= total, shares only grow,
-// only queues with a recorded rounding remainder receive anything, other resources untouched.
-// NOT proved: "at most one unit per queue" (needs multiset facts about PriorityQueue.Pop, see report).
+// C09, remainder phase of one priority level ("the surplus handed out never exceeds what is left",
+// "exceeds its capped request by less than one rounding unit"): hands out min(1, what is left) per
+// popped record (each hand-out is at most one unit), so 0 <= remaining <= total; shares only grow;
+// only queues with a recorded rounding remainder receive anything; other resources are untouched.
+// NOT proved: "every queue receives at most ONE unit" (invariants `pqNoDup(sortedQueues)` + `every record
+// still in the heap is ungained` + `gain <= 1`; the preservation queries through the trusted Pop contract
+// ([removedOnce], [noNewDuplicates]) are not decided by any solver within 120 s), see report.
 //@ func divideRemainingResource
-//@   props C09x
-//@   requires validRes(resourceName) && totalResourceAmount >= 0.0 && rrUsable(remainingRequested)
+//@   props C09
+//@   requires validRes(resourceName) && totalResourceAmount >= 0.0 && rrKeyed(remainingRequested)
 //@   modifies family(remainingRequested[""].queue.CPU.FairShare), family(remainingRequested[""].queue.lastFairShare)
 //@   loop 1
-//@     invariant sortedQueues != nil && fresh(sortedQueues)
+//@     invariant sortedQueues != nil && fresh(sortedQueues) && fresh(sortedQueues.queue.items)
 //@     invariant oldQueuesKept()
-//@     invariant pqFromTable(sortedQueues, remainingRequested, len(sortedQueues.queue.items))
+//@     invariant pqFromTable(sortedQueues, remainingRequested)
 //@     invariant cur(totalResourceAmount) >= 0.0 && cur(totalResourceAmount) <= totalResourceAmount
-//@     invariant rrUsable(remainingRequested)
+//@     invariant rrKeyed(remainingRequested)
 //@     invariant forall q *rs.QueueAttributes :: q != nil ==> fair(q, resourceName) >= old(fair(q, resourceName)) && otherResKept(q, resourceName)
-//@     invariant forall q *rs.QueueAttributes :: q != nil && !inTable(remainingRequested, q) ==> fair(q, resourceName) == old(fair(q, resourceName)) && q.lastFairShare == old(q.lastFairShare)
+//@     invariant forall q *rs.QueueAttributes :: q != nil && !inTable(remainingRequested, q) ==> ungained(q, resourceName) && q.lastFairShare == old(q.lastFairShare)
 //@   ensures [neverNegative] remainingAmount >= 0.0
 //@   ensures [nothingTakenBack] remainingAmount <= totalResourceAmount
 //@   ensures [sharesOnlyGrow] forall q *rs.QueueAttributes :: q != nil ==> fair(q, resourceName) >= old(fair(q, resourceName))
 //@   ensures [otherResourcesKept] forall q *rs.QueueAttributes :: q != nil ==> otherResKept(q, resourceName)
-//@   ensures [onlyTableQueues] forall q *rs.QueueAttributes :: q != nil && !inTable(remainingRequested, q) ==> fair(q, resourceName) == old(fair(q, resourceName)) && q.lastFairShare == old(q.lastFairShare)
-//@   ensures [cache] rrUsable(remainingRequested)
+//@   ensures [onlyTableQueues] forall q *rs.QueueAttributes :: q != nil && !inTable(remainingRequested, q) ==> ungained(q, resourceName) && q.lastFairShare == old(q.lastFairShare)
+//@   ensures [cache] rrKeyed(remainingRequested)
 //@ end
 
 // ---- phase 2+3 over all priority levels -----------------------------------------
@@ -305,10 +323,10 @@ package resource_division
 // other resources are untouched
 //@ define grown(q *rs.QueueAttributes, r rs.ResourceName) bool = fair(q, r) >= old(fair(q, r)) && otherResKept(q, r)
 // remainder tables per priority: every table is a fresh map, every record is fresh and points to one of the siblings
-//@ define rrAllOK(all map[int]map[common_info.QueueID]*remainingRequestedResource, qs map[common_info.QueueID]*rs.QueueAttributes) bool = forall p in all :: all[p] != nil && fresh(all[p]) && (forall k in all[p] :: all[p][k] != nil && fresh(all[p][k]) && all[p][k].queue != nil && member(qs, all[p][k].queue))
+//@ define rrAllOK(all map[int]map[common_info.QueueID]*remainingRequestedResource, qs map[common_info.QueueID]*rs.QueueAttributes) bool = forall p in all :: all[p] != nil && fresh(all[p]) && (forall k in all[p] :: k in qs && all[p][k] != nil && fresh(all[p][k]) && all[p][k].queue == qs[k])
 
 //@ func divideOverQuotaResource
-//@   props C09x
+//@   props C09
 //@   requires validRes(resourceName) && queuesOK(queues) && keyedByUID(queues) && weightsNonNeg(queues, resourceName)
 //@   modifies family(queues[""].CPU.FairShare), family(queues[""].lastFairShare)
 //@   loop 1
@@ -344,7 +362,7 @@ package resource_division
 // least that amount (quota -1 = unlimited = the whole amount); other resources and other queues are
 // untouched. Functional per queue, hence independent of the enumeration order of the siblings.
 //@ func setResourceShare
-//@   props C09x
+//@   props C09
 //@   requires validRes(resourceName) && queuesOK(queues) && keyedByUID(queues) && weightsNonNeg(queues, resourceName)
 //@   modifies family(queues[""].CPU.FairShare), family(queues[""].lastFairShare)
 //@   ensures [deservedFloor] forall k in queues :: fair(queues[k], resourceName) >= old(fair(queues[k], resourceName)) + deservedPart(queues[k], resourceName, totalAmount)
@@ -355,7 +373,7 @@ package resource_division
 
 // logging and metrics only
 //@ func reportDivisionResult
-//@   props C09x
+//@   props C09
 //@   requires forall k in queues :: queues[k] != nil
 //@   pure
 //@   loop 1
@@ -364,7 +382,7 @@ package resource_division
 
 // C09 (top level): the floor law for all three resources of one sibling set.
 //@ func SetResourcesShare
-//@   props C09x
+//@   props C09
 //@   requires queuesOK(queues) && keyedByUID(queues)
 //@   requires weightsNonNeg(queues, "CPU") && weightsNonNeg(queues, "Memory") && weightsNonNeg(queues, "GPU")
 //@   modifies family(queues[""].CPU.FairShare), family(queues[""].lastFairShare)
